@@ -306,6 +306,19 @@ class Gen:
         for st in (getattr(prog, "segments", None) or []):
             if getattr(st, "pc_def", None) is not None:
                 body.append(Stmt("const", root, d=st.pc_def, expr=("num", st.pc, None)))
+        if k.get("p_setpc_back", 0.0) and prog.has_segments and rng.random() < 0.5:
+            # a segment of its own whose first bytes are written behind a gap, followed by one item that starts in the gap (below
+            # everything written so far) and ends above it: one write that extends the range on both sides
+            sd = Stmt("segdef", root, name="segback", start=0x6000, pc=rng.choice([None, 0x9800]), write=True, bank=None)
+            prog.segments.append(sd)
+            body.insert(len(prog.segments) - 1, sd)
+            gap, kb = rng.randrange(2, 5), rng.randrange(1, 5)
+            h = rng.randrange(1, gap + 1)
+            blk = [Stmt("setpc", root, delta=gap),
+                   Stmt("data", root, size=".byte", exprs=[("num", rng.randrange(256), None) for _ in range(kb)]),
+                   Stmt("setpc", root, delta=-(kb + h)),
+                   Stmt("text", root, enc=None, text="".join(rng.choice("abcdefgh01234") for _ in range(kb + h + rng.randrange(1, 6))))]
+            body.append(Stmt("seguse", root, name="segback", block=blk))
         if k.get("p_setpc_back", 0.0) and rng.random() < 0.5:
             # the same shape as the last thing of the program (of the segment that is current then): nothing is written behind
             # the item that reaches below and above what the segment holds so far
